@@ -25,6 +25,8 @@ def run(c: Check):
                            env={"VERIF_NRANDOM": 2000 if th else 200, "VERIF_NREF": 1})
     ev1 = read_ndjson(out1)
     fails += c.validate_segments("TraceBillStat", "TraceBillStat1.cfg", ev1)
+    # unbounded: the per-device counters as integers, any number of records and uploads (BillCounter.tla)
+    c.apalache_inductive("BillCounter", ("pending' = pending + f1 ", "pending' = f1 "))
     out2, _ = c.go_harness("internal/billstat", "^TestVerifC16Stress$", race=True,
                            env={"VERIF_NSTRESS": 60 if th else 10})
     ev2 = read_ndjson(out2)
